@@ -15,8 +15,9 @@
 (*        one entry of VarzAggregator.Aggregate(..., key_selector = sel):  *)
 (*        aggregate `total` (scaled by ascale) reported under `key` for    *)
 (*        metric m; series = len(VARZ_DATA[m]); cnt = number of series the  *)
-(*        aggregator folded into this entry; pcts = the five percentiles   *)
-(*        (scaled, monotone rounding); lo/hi = smallest / largest sample   *)
+(*        aggregator folded into this entry; pcts = the reported           *)
+(*        percentiles in rising percentile order (p50, p90, p99, p99.9,     *)
+(*        p99.99; scaled, monotone rounding); lo/hi = smallest / largest sample *)
 (*        retained for the sources of this entry (-1: not observable)      *)
 (*   AggDone(m, sel, nkeys)  the aggregate of metric m had nkeys entries    *)
 (*                                                                         *)
@@ -96,10 +97,11 @@ PctOk(m, t, pcts, lo, hi) ==
       L == IF obs THEN lo ELSE Min(V)  \* otherwise every recorded sample bounds the retained ones
       H == IF obs THEN hi ELSE Max(V)
   IN /\ ascale * L <= pcts[1]
-     /\ \A i \in 1..4 : pcts[i] <= pcts[i + 1]
-     /\ pcts[5] <= ascale * H
+     /\ \A i \in 1..(Len(pcts) - 1) : pcts[i] <= pcts[i + 1]
+     /\ pcts[Len(pcts)] <= ascale * H
 
-\* The set of C18 clauses this aggregate entry breaks.
+\* The set of C18 clauses this aggregate entry breaks.  A key no recorded source maps to
+\* has an empty group: its counter/rate total must be 0 and no series may feed it.
 AggFail(m, sel, key, total, series, cnt, pcts, lo, hi) ==
   LET G == Group(m, sel, key)
       kind == akinds[m]
@@ -120,8 +122,7 @@ First(F) == IF "C18.sum" \in F THEN "C18.sum"
 AggCheck(m, sel, key, total, series, cnt, pcts, lo, hi) ==
   IF m \notin DOMAIN akinds THEN "harness.metric"
   ELSE IF sel \notin Selectors THEN "harness.selector"
-  ELSE IF Group(m, sel, key) = {} THEN "harness.aggKey"       \* a key no recorded source maps to
-  ELSE IF akinds[m] \in PctKinds /\ Len(pcts) # 5 THEN "harness.pcts"
+  ELSE IF akinds[m] \in PctKinds /\ Len(pcts) = 0 THEN "harness.pcts"
   ELSE First(AggFail(m, sel, key, total, series, cnt, pcts, lo, hi))
 
 \* A key whose sources have recorded data must be reported.
